@@ -408,6 +408,8 @@ void World::opProbe(const Item& op)
     const uint32_t id = static_cast<uint32_t>(op.get("id", 1));
     size_t len = static_cast<size_t>(std::min<int64_t>(std::max<int64_t>(0, op.get("len", 0)), 65535));
     Bytes body = kind == wire::K_GENERIC || op.get("rawbody", 0) ? contentBytes(id, 0, len) : makePayload(kind, len, id);
+    if (kind == wire::K_CMSTAT && op.get("nonul", 0))
+        body = makeCmNoNul(id);
     if (op.has("p1o") && !body.empty())
         body[static_cast<size_t>(std::max<int64_t>(0, op.get("p1o"))) % body.size()] = static_cast<uint8_t>(op.get("p1v"));
     if (op.has("p2o") && !body.empty())
